@@ -32,6 +32,10 @@ type Scenario struct {
 	MinOutcomes int
 	// MinHB: vacuity guard on distinct happens-before signatures (default 2).
 	MinHB int
+	// OnlyKeys: when set, only violations whose key starts with one of these prefixes count
+	// (a body shared between properties reports each property's clauses under its own check).
+	OnlyKeys []string
+	NoStalls bool
 }
 
 var scenarios []*Scenario
@@ -130,7 +134,7 @@ func shortFunc(f string) string {
 // runOne executes the scenario once along prefix.
 func runOne(sc *Scenario, prefix []int, trace bool) *ExecReport {
 	x := &X{}
-	cfg := vs.Config{Prefix: prefix, MaxSteps: sc.MaxSteps, Trace: trace, AtomicPoints: sc.Atomic, NoPoison: sc.NoPoison}
+	cfg := vs.Config{Prefix: prefix, MaxSteps: sc.MaxSteps, Trace: trace, AtomicPoints: sc.Atomic, NoPoison: sc.NoPoison, NoStalls: sc.NoStalls}
 	res := vs.Run(cfg, func() { sc.Body(x) })
 	rep := &ExecReport{Points: res.Points, Res: res}
 	rep.Choices = make([]int, len(res.Points))
@@ -149,6 +153,17 @@ func runOne(sc *Scenario, prefix []int, trace bool) *ExecReport {
 		x.Fail("livelock/step-horizon", "execution did not quiesce within %d scheduling steps", res.Steps)
 	}
 	rep.Viol = x.viol
+	if len(sc.OnlyKeys) > 0 {
+		rep.Viol = nil
+		for _, v := range x.viol {
+			for _, p := range sc.OnlyKeys {
+				if strings.HasPrefix(v.Key, p) {
+					rep.Viol = append(rep.Viol, v)
+					break
+				}
+			}
+		}
+	}
 	rep.Cases, rep.Shapes = x.cases, x.shapes
 	rep.Outcome = strings.Join(x.outcome, " | ")
 	if len(res.Panics) > 0 {
